@@ -207,11 +207,11 @@ def _jump(stmts):
 def describe(fn):
     params, locs = local_order(fn)
     tests, loops = [], []
-    for n in _own_nodes(fn):
-        if isinstance(n, ast.If):
-            tests.append([_n(n.test), bool(n.orelse), _jump(n.body)])
-        elif isinstance(n, ast.For):
-            loops.append([_n(n.target), _n(n.iter)])
+    for st, _blk, _i in _ifs_in_order(fn):
+        tests.append([_n(st.test), bool(st.orelse), _jump(st.body)])
+    for n in sorted([x for x in _own_nodes(fn) if isinstance(x, ast.For)],
+                    key=lambda x: (x.lineno, x.col_offset)):
+        loops.append([_n(n.target), _n(n.iter)])
     return {'params': params, 'locals': locs, 'defs': _defs_of(fn),
             'tests': tests, 'loops': loops}
 
@@ -534,68 +534,123 @@ def _owner_stmt(st, call):
 # ---------------------------------------------------------------------------
 # I: if orientation
 
+def _unsigned(test):
+    """(canonical text without polarity, polarity)"""
+    if isinstance(test, ast.UnaryOp) and isinstance(test.op, ast.Not):
+        t, p = _unsigned(test.operand)
+        return t, not p
+    if isinstance(test, ast.Compare) and len(test.ops) == 1:
+        op = type(test.ops[0])
+        canon_op = {ast.NotEq: ast.Eq, ast.GtE: ast.Lt, ast.LtE: ast.Gt,
+                    ast.IsNot: ast.Is, ast.NotIn: ast.In}
+        if op in canon_op:
+            c = ast.Compare(left=test.left, ops=[canon_op[op]()],
+                            comparators=test.comparators)
+            return _n(c), False
+        return _n(test), True
+    return _n(test), True
+
+
+def _ifs_in_order(fn):
+    out = []
+
+    def rec(stmts):
+        for i, st in enumerate(stmts):
+            if isinstance(st, (ast.FunctionDef, ast.AsyncFunctionDef,
+                               ast.ClassDef)):
+                continue
+            if isinstance(st, ast.If):
+                out.append((st, stmts, i))
+            for f in ('body', 'orelse', 'finalbody'):
+                b = getattr(st, f, None)
+                if isinstance(b, list) and b and isinstance(b[0], ast.stmt):
+                    rec(b)
+            if isinstance(st, ast.Try):
+                for h in st.handlers:
+                    rec(h.body)
+    rec(fn.body)
+    return out
+
+
 def _orient_ifs(fn, rf, log, q):
-    ref_tests = {t[0]: (t[1], t[2]) for t in rf.get('tests', [])}
-    if not ref_tests:
+    """Bring every if-statement to the polarity / shape the reference has at
+    the corresponding position (sequence alignment on the unsigned tests)."""
+    import difflib
+    ref = rf.get('tests', [])
+    if not ref:
         return
-    changed = True
-    guard = 0
-    while changed and guard < 20:
+    ref_u = []
+    for t, has_else, jump in ref:
+        try:
+            u, p = _unsigned(ast.parse(t, mode='eval').body)
+        except SyntaxError:
+            u, p = t, True
+        ref_u.append((u, p, has_else, jump))
+    for _pass in range(12):
+        cur = _ifs_in_order(fn)
+        cur_u = [_unsigned(st.test) for st, _b, _i in cur]
+        sm = difflib.SequenceMatcher(a=[u for u, *_ in ref_u],
+                                     b=[u for u, _p in cur_u],
+                                     autojunk=False)
         changed = False
-        guard += 1
-        for blk in _blocks(fn):
-            for i, st in enumerate(blk):
-                if not isinstance(st, ast.If):
-                    continue
+        for blk_ in sm.get_matching_blocks():
+            for k in range(blk_.size):
+                ru, rp, has_else, jump = ref_u[blk_.a + k]
+                st, blk, i = cur[blk_.b + k]
+                cu, cp = cur_u[blk_.b + k]
                 t = _n(st.test)
-                negs = negations(st.test)
-                hit = [x for x in negs if x in ref_tests]
-                if t in ref_tests:
-                    has_else, jump = ref_tests[t]
-                    # same test, other shape: `if c: jump` + rest  <->  else
+                if cp != rp:
+                    if st.orelse:
+                        st.test = negate(st.test)
+                        st.body, st.orelse = st.orelse, st.body
+                        log.append('%s: branches of `%s` swapped back'
+                                   % (q, t))
+                        changed = True
+                        break
+                    if not has_else and jump and not blk[i + 1:]:
+                        kind = _enclosing_jump(fn, blk)
+                        if kind is not None:
+                            body = st.body
+                            st.test = negate(st.test)
+                            st.body = [ast.copy_location(kind(), st)]
+                            blk[i + 1:i + 1] = body
+                            log.append('%s: nested `%s` restored to a guard'
+                                       % (q, t))
+                            changed = True
+                            break
                     if has_else and not st.orelse and _jump(st.body) and \
                             blk[i + 1:]:
-                        st.orelse = blk[i + 1:]
+                        # `if not c: jump` + rest  <-  `if c: rest else: jump`
+                        rest = blk[i + 1:]
                         del blk[i + 1:]
+                        st.test = negate(st.test)
+                        st.orelse = st.body
+                        st.body = rest
                         log.append('%s: guard `%s` restored to if/else'
                                    % (q, t))
                         changed = True
                         break
-                    if not has_else and jump and st.orelse and \
-                            _jump(st.body):
-                        rest = st.orelse
-                        st.orelse = []
-                        blk[i + 1:i + 1] = rest
-                        log.append('%s: else of `%s` flattened after the '
-                                   'jump' % (q, t))
-                        changed = True
-                        break
                     continue
-                if not hit:
-                    continue
-                rt = hit[0]
-                has_else, jump = ref_tests[rt]
-                if st.orelse:
-                    st.test = negate(st.test)
-                    st.body, st.orelse = st.orelse, st.body
-                    log.append('%s: branches of `%s` swapped back to `%s`'
-                               % (q, t, rt))
+                # same polarity, other shape
+                if has_else and not st.orelse and _jump(st.body) and \
+                        blk[i + 1:]:
+                    st.orelse = blk[i + 1:]
+                    del blk[i + 1:]
+                    log.append('%s: guard `%s` restored to if/else' % (q, t))
                     changed = True
                     break
-                # `if not c: body` (rest of block empty) <- `if c: jump`
-                if not has_else and jump and not blk[i + 1:]:
-                    kind = _enclosing_jump(fn, blk)
-                    if kind is not None:
-                        body = st.body
-                        st.test = negate(st.test)
-                        st.body = [ast.copy_location(kind(), st)]
-                        blk[i + 1:i + 1] = body
-                        log.append('%s: nested `%s` restored to guard `%s`'
-                                   % (q, t, rt))
-                        changed = True
-                        break
+                if not has_else and jump and st.orelse and _jump(st.body):
+                    rest = st.orelse
+                    st.orelse = []
+                    blk[i + 1:i + 1] = rest
+                    log.append('%s: else of `%s` flattened after the jump'
+                               % (q, t))
+                    changed = True
+                    break
             if changed:
                 break
+        if not changed:
+            break
     ast.fix_missing_locations(fn)
 
 
@@ -754,6 +809,45 @@ def _rename(fn, mapping):
             n.arg = mapping[n.arg]
 
 
+import re as _re
+
+
+def _mask(text, name):
+    """Replace the identifier `name` (not inside string literals) by @."""
+    out = []
+    for k, part in enumerate(_re.split(r"('(?:[^'\\\\]|\\\\.)*'|\"(?:[^\"\\\\]|\\\\.)*\")",
+                                       text)):
+        if k % 2 == 0:
+            part = _re.sub(r'(?<![\w.])%s(?!\w)' % _re.escape(name), '@',
+                           part)
+        out.append(part)
+    return ''.join(out)
+
+
+def _pure_lookup(e):
+    """Attribute / subscript chain with name or constant indices: a hoisted
+    lookup."""
+    if isinstance(e, ast.Name):
+        return True
+    if isinstance(e, ast.Attribute):
+        return _pure_lookup(e.value)
+    if isinstance(e, ast.Subscript):
+        sl = e.slice
+        parts = sl.elts if isinstance(sl, ast.Tuple) else [sl]
+        return _pure_lookup(e.value) and all(
+            isinstance(p_, (ast.Constant, ast.Name)) or (
+                isinstance(p_, ast.UnaryOp) and isinstance(
+                    p_.operand, ast.Constant)) or _pure_lookup(p_)
+            for p_ in parts)
+    return False
+
+
+def _live_range(fn, name):
+    lines = [x.lineno for x in _own_nodes(fn) if isinstance(x, ast.Name)
+             and x.id == name]
+    return (min(lines), max(lines)) if lines else (0, 0)
+
+
 def _temps_and_names(fn, rf, log, q):
     params, locs = local_order(fn)
     ref_locs = rf.get('locals', [])
@@ -769,38 +863,62 @@ def _temps_and_names(fn, rf, log, q):
         _rename(fn, mapping)
         for c_, r_ in mapping.items():
             log.append('%s: parameter %s -> %s' % (q, c_, r_))
-        params, locs = local_order(fn)
-    for _round in range(3):
+    for _round in range(24):
         params, locs = local_order(fn)
         cur_only = [n for n in locs if n not in ref_locs]
         ref_only = [n for n in ref_locs if n not in locs]
         if not cur_only:
             return
-        mapping = {}
         used = _names(fn) | set(params)
-        # 1. pair by definition text (after renaming the candidate itself)
         cdefs = _defs_of(fn)
-        left_c, left_r = list(cur_only), list(ref_only)
-        for c_ in list(left_c):
-            for r_ in list(left_r):
-                cd = [d.replace(c_, r_) for d in cdefs.get(c_, [])]
-                rd = ref_defs.get(r_, [])
-                if cd and rd and (cd[0] == rd[0] or set(cd) == set(rd)):
-                    if r_ not in used:
-                        mapping[c_] = r_
-                        left_c.remove(c_)
-                        left_r.remove(r_)
-                    break
-        if mapping:
-            _rename(fn, mapping)
-            for c_, r_ in mapping.items():
+        # A. pair by definition text: the whole definition list, or -- for a
+        #    recorded local that was split into several single-assignment
+        #    locals -- one of its definitions (disjoint live ranges)
+        done = False
+        for c_ in cur_only:
+            cd = [_mask(d, c_) for d in cdefs.get(c_, [])]
+            if not cd:
+                continue
+            for r_ in ref_locs:
+                rd = [_mask(d, r_) for d in ref_defs.get(r_, [])]
+                if not rd:
+                    continue
+                whole = (r_ in ref_only) and (cd == rd or set(cd) == set(rd))
+                part = len(cd) == 1 and len(rd) > 1 and cd[0] in rd
+                if not (whole or part):
+                    continue
+                if r_ in used:
+                    # the recorded name is in use: only a split sibling with
+                    # a disjoint live range may join it
+                    if not part:
+                        continue
+                    a0, a1 = _live_range(fn, c_)
+                    b0, b1 = _live_range(fn, r_)
+                    if not (a1 < b0 or b1 < a0):
+                        continue
+                _rename(fn, {c_: r_})
                 log.append('%s: local %s -> %s (same definition)'
                            % (q, c_, r_))
+                done = True
+                break
+            if done:
+                break
+        if done:
             continue
-        # 2. more locals than recorded: inline temporaries
-        if len(left_c) > len(left_r):
-            done = False
-            for c_ in reversed(left_c):
+        # B. inline hoisted lookups the reference does not know
+        for c_ in cur_only:
+            h = _single_assign(fn, c_)
+            if h is not None and _pure_lookup(h[2].value) and \
+                    _inline_temp(fn, c_):
+                log.append('%s: hoisted lookup %s inlined' % (q, c_))
+                done = True
+                break
+        if done:
+            ast.fix_missing_locations(fn)
+            continue
+        # C. more locals than recorded: inline other temporaries
+        if len(cur_only) > len(ref_only):
+            for c_ in reversed(cur_only):
                 if _inline_temp(fn, c_):
                     log.append('%s: temporary %s inlined' % (q, c_))
                     done = True
@@ -808,10 +926,10 @@ def _temps_and_names(fn, rf, log, q):
             if done:
                 ast.fix_missing_locations(fn)
                 continue
-        # 3. pair the rest by order of first binding
-        if left_c and len(left_c) == len(left_r):
+        # D. pair the rest by order of first binding
+        if cur_only and len(cur_only) == len(ref_only):
             mapping = {}
-            for c_, r_ in zip(left_c, left_r):
+            for c_, r_ in zip(cur_only, ref_only):
                 if r_ not in used:
                     mapping[c_] = r_
             if mapping:
@@ -824,6 +942,41 @@ def _temps_and_names(fn, rf, log, q):
 
 
 # ---------------------------------------------------------------------------
+
+def _renumber(fn):
+    """Make statement line numbers strictly increasing in source order after
+    statements were moved (rules order statements by line)."""
+    prev = [fn.lineno]
+
+    def shift(node, delta):
+        for x in ast.walk(node):
+            if hasattr(x, 'lineno') and x.lineno is not None:
+                x.lineno += delta
+            if getattr(x, 'end_lineno', None) is not None:
+                x.end_lineno += delta
+
+    def rec(stmts):
+        for st in stmts:
+            if st.lineno <= prev[0]:
+                shift(st, prev[0] + 1 - st.lineno)
+            prev[0] = st.lineno
+            if isinstance(st, (ast.FunctionDef, ast.AsyncFunctionDef,
+                               ast.ClassDef)):
+                prev[0] = max(prev[0], getattr(st, 'end_lineno', st.lineno)
+                              or st.lineno)
+                continue
+            for f in ('body', 'orelse', 'finalbody'):
+                b = getattr(st, f, None)
+                if isinstance(b, list) and b and isinstance(b[0], ast.stmt):
+                    rec(b)
+            if isinstance(st, ast.Try):
+                for h in st.handlers:
+                    rec(h.body)
+            end = max([getattr(x, 'lineno', 0) or 0 for x in ast.walk(st)])
+            st.end_lineno = max(getattr(st, 'end_lineno', 0) or 0, end)
+    rec(fn.body)
+    fn.end_lineno = max(getattr(fn, 'end_lineno', 0) or 0, prev[0])
+
 
 def canonicalise(tree, modname):
     """Rewrite the module tree in place; returns the list of rewrites."""
@@ -841,8 +994,13 @@ def canonicalise(tree, modname):
         rf = table.get(q)
         if not rf:
             continue
+        n0 = len(log)
         _orient_ifs(fn, rf, log, q)
         _loops_to_reference(fn, rf, log, q)
         _temps_and_names(fn, rf, log, q)
+        if len(log) > n0 or any(l.startswith('inlined helper')
+                                for l in log):
+            ast.fix_missing_locations(fn)
+            _renumber(fn)
     ast.fix_missing_locations(tree)
     return log
